@@ -9,7 +9,14 @@ VOCAB = ["def", "salt", "splitters", "if", "else", "else if", "weighted", "retur
 
 
 def mutate(toks, rng):
-    """-> (kind, token list)"""
+    """-> (kind, token list); never raises"""
+    try:
+        return _mutate(toks, rng)
+    except (IndexError, ValueError):
+        return "insert", list(toks) + [rng.choice(VOCAB)]
+
+
+def _mutate(toks, rng):
     toks = list(toks)
     n = len(toks)
     if n < 2:
@@ -64,7 +71,7 @@ def mutate(toks, rng):
             toks.insert(rng.randrange(n + 1), "=<")
     elif kind == "extra-clause":
         # a whole extra else / else-if / if clause after some closing brace
-        idx = [i for i, t in enumerate(toks) if t == "}"]
+        idx = [i for i, t in enumerate(toks) if t == "}"] or [len(toks) - 1]
         i = rng.choice(idx)
         clause = rng.choice([["else", "{", "return", '"z"', "weighted", "1", "}"],
                              ["else if", "x", "==", "1", "{", "return", '"z"', "weighted", "1", "}"],
@@ -81,6 +88,6 @@ def mutate(toks, rng):
         else:
             toks.insert(rng.randrange(n + 1), "\"abc'")
     else:
-        _, toks = mutate(toks, rng)
-        _, toks = mutate(toks, rng)
+        _, toks = _mutate(toks, rng)
+        _, toks = _mutate(toks, rng)
     return kind, toks
